@@ -827,7 +827,7 @@ pub fn op(p: &Profile) -> BoxedStrategy<Op> {
         v.push((1, Just(Op::Leave).boxed()));
     }
     if p.change_identity {
-        let renew = if p.weird_renew { (0..5u8).boxed() } else { prop_oneof![Just(RENEW_NONE), Just(RENEW_NEXT)].boxed() };
+        let renew = if p.weird_renew { (0..RENEW_MODES).boxed() } else { prop_oneof![Just(RENEW_NONE), Just(RENEW_NEXT)].boxed() };
         let sel = if p.change_addr {
             prop_oneof![3 => (0..p.n_gen + 2).prop_map(IdSel::OwnAddr), 1 => id_sel(p)].boxed()
         } else {
@@ -892,7 +892,7 @@ pub fn periodic(lo: u32, hi: u32) -> BoxedStrategy<Option<Periodic>> {
 pub fn setup(sp: &SetupProfile) -> BoxedStrategy<Setup> {
     let codecs = sp.codecs.clone();
     let packet: Vec<BoxedStrategy<u32>> = sp.packet.iter().map(|(a, b)| (*a..*b).boxed()).collect();
-    let renew = if sp.weird_renew { (0..5u8).boxed() } else { prop_oneof![Just(RENEW_NONE), Just(RENEW_NEXT)].boxed() };
+    let renew = if sp.weird_renew { (0..RENEW_MODES).boxed() } else { prop_oneof![Just(RENEW_NONE), Just(RENEW_NEXT)].boxed() };
     let per = sp.periodic;
     let notify = match sp.notify_down {
         Some(b) => Just(b).boxed(),
